@@ -120,7 +120,9 @@ def decide(cell, by_n, which, prop):
         table[name] = dict(bias_N=round(bN, 4), se_N=round(seN, 4), bias_4N=round(b4, 4), se_4N=round(se4, 4))
         delta = DELTA[kind_of(name)]
         c1 = abs(b4) - delta > Z * se4
-        c2 = abs(b4) - 0.6 * abs(bN) > Z * math.sqrt(se4 ** 2 + 0.36 * seN ** 2)
+        # clause 2 separates a persistent bias from a legitimate O(1/N) one (for which |b4|-0.6|bN| is negative whatever the noise level);
+        # the family-wise false-alarm control is clause 1 at z=6, so clause 2 can use z=3 and keep twice the power
+        c2 = abs(b4) - 0.6 * abs(bN) > 3.0 * math.sqrt(se4 ** 2 + 0.36 * seN ** 2)
         if c1 and c2:
             btype = "periodic" if "periodic" in cell["target"] else "reflective" if "reflective" in cell["target"] else "hard"
             viol.append(dict(property=prop, oracle="persistent_bias", detail=f"cell {json.dumps(cell, sort_keys=True)}: estimand {name} has mean error {bN:+.4f}+-{seN:.4f} at N={n1} and {b4:+.4f}+-{se4:.4f} at N={n4} "
